@@ -162,7 +162,7 @@ func seamAddresser() *staged {
 	if fd == nil || fd.Body == nil {
 		fatalf("anchor not found: func NewAddresser in internal/system/addresser_linux.go")
 	}
-	fd.Body.List = append([]ast.Stmt{parseStmt("if verifAddresser != nil { return verifAddresser }")}, fd.Body.List...)
+	fd.Body.List = append([]ast.Stmt{parseStmt("if a := verifAddresser(); a != nil { return a }")}, fd.Body.List...)
 	return s
 }
 
